@@ -314,4 +314,38 @@ def loadSnapshot (crcCopy lengthChecked : Bool) : List String := [
   "}",
   "return snapshot, nil"]
 
+/-- `(*Writer).loadSnapshots` — model: `writerWalk` / `openWriterSnap` (the writer's fallback: oldest → newest,
+an error moves on, the LAST snapshot that loads is the root; failure only when files exist and none loads) -/
+def loadSnapshots : List String := [
+  "func Writer.loadSnapshots() (lastPersistedEpoch, nextSnapshotEpoch uint64, err error)",
+  "nextSnapshotEpoch = 1",
+  -- the listing is descending (`FileSystemDirectory.List`: C03's `listDescending`) …
+  "snapshotEpochs, err = s.directory.List(ItemKindSnapshot) ?",
+  -- … so this walks oldest → newest: `writerWalk` over the files oldest first
+  "for i = len(snapshotEpochs) - 1; i >= 0; i-- {",
+  "  snapshotEpoch = snapshotEpochs[i]",
+  "  snapshotsFound = true",
+  -- writerWalk: `match loadFull … f with`
+  "  indexSnapshot, err = s.loadSnapshot(snapshotEpoch)",
+  -- writerWalk: `| error _ => writerWalk … rest (i + 1) acc` — the accumulated result is kept
+  "  if err != nil {",
+  "    log.Printf(\"error loading snapshot epoch: %d: %v\", snapshotEpoch, err)",
+  "    continue",
+  "  }",
+  -- writerWalk: `| ok ss => writerWalk … rest (i + 1) (some (i, ss))` — a later snapshot replaces an earlier one
+  "  snapshotLoaded = true",
+  "  lastPersistedEpoch = indexSnapshot.epoch",
+  "  nextSnapshotEpoch = indexSnapshot.epoch + 1",
+  "  s.deletionPolicy.Commit(indexSnapshot)",
+  "  atomic.StoreUint64(&s.stats.TotFileSegmentsAtRoot, uint64(len(indexSnapshot.segment)))",
+  "  s.replaceRoot(indexSnapshot, nil, nil)",
+  "}",
+  -- openWriterSnap: `| ok none => if files.isEmpty then ok none else error .noSnapshot`
+  "if snapshotsFound && !snapshotLoaded {",
+  "  return 0, 0, error",
+  "}",
+  -- openWriterSnap: `| ok (some x) => ok (some x)` — NOT the outcome of the last file looked at: `err` is the named
+  -- result and still holds the newest file's error here, the function must return nil
+  "return lastPersistedEpoch, nextSnapshotEpoch, nil"]
+
 end Bluge.Codec.Script
